@@ -65,6 +65,7 @@ class Contract:
     holds: List[tuple] = field(default_factory=list)   # (var, decl_regex, until_regex, oid, tags, src)
     callsites: List[tuple] = field(default_factory=list)  # (call_regex, oid, tags): this fn is the only caller
     mustcall: List[tuple] = field(default_factory=list)   # (call_regex, oid, tags): called unconditionally (top block of the body)
+    sameas: Optional[tuple] = None   # (addr, regex, replacement, oid suffix, src)
     contains: List[tuple] = field(default_factory=list)   # (regex, oid, tags): the body still contains the call
     ghost: str = ''                 # ghost members appended inside the item body (struct/impl/trait)
     stub: bool = False
@@ -199,6 +200,17 @@ def parse_file(path: str) -> List[Contract]:
             if not mm:
                 raise ContractError('%s: @mustcall /call-regex/ <id> [tags]' % where)
             cur.mustcall.append((mm.group(1), mm.group(2), mm.group(3).split()))
+        elif d == 'sameas':
+            # @sameas <addr> /regex/ -> /replacement/ <suffix>: take over the requires/ensures of another item, textually substituted
+            mm = re.match(r'(\S+)\s+/(.*?)/\s*->\s*/(.*?)/\s+(\S+)\s*$', arg)
+            if not mm:
+                raise ContractError('%s: @sameas <addr> /regex/ -> /replacement/ <oid-suffix>' % where)
+            cur.sameas = (mm.group(1), [(mm.group(2), mm.group(3))], None, mm.group(4), where)
+        elif d == 'subst':
+            mm = re.match(r'/(.*?)/\s*->\s*/(.*?)/\s*$', arg)
+            if not mm or not cur.sameas:
+                raise ContractError('%s: @subst /regex/ -> /replacement/ (after @sameas)' % where)
+            cur.sameas[1].append((mm.group(1), mm.group(2)))
         elif d == 'contains':
             mm = re.match(r'/(.*)/\s+(\S+)\s+\[([^\]]*)\]\s*$', arg)
             if not mm:
@@ -232,4 +244,20 @@ def load_dir(d: str) -> Dict[str, Contract]:
             if c.addr in table:
                 raise ContractError('duplicate contract for %s (%s, %s)' % (c.addr, table[c.addr].src, c.src))
             table[c.addr] = c
+    for c in table.values():
+        if c.sameas:
+            addr, subs, _unused, suf, where = c.sameas
+            if addr not in table:
+                raise ContractError('%s: @sameas names unknown item %s' % (where, addr))
+            src = table[addr]
+
+            def sub_all(t):
+                for pat, rep in subs:
+                    t = re.sub(pat, rep, t)
+                return t
+            copied = [Clause(kind=cl.kind, oid=cl.oid + suf, tags=list(cl.tags), text=sub_all(cl.text), src=where)
+                      for cl in src.clauses if cl.kind in ('requires', 'ensures')]
+            c.clauses = copied + c.clauses
+            if c.ret is None:
+                c.ret = src.ret
     return table
